@@ -1172,3 +1172,26 @@ r('ren-meshparam-leaves', ['C18', 'C02'], M, 'MeshParametrized.__init__', 'leave
 r('ren-linformvec-vec', ['C17', 'C08'], IP, 'InitialOperator.linform_vector', 'vec', 'values')
 r('ren-fint2-val', ['C01'], SLX, 'fint_2', 'val', 'value')
 r('ren-se1-result', ['C07'], SLX, 'spacetime_evaluated_1', 'result', 'total')
+
+# ---- later additions ---------------------------------------------------------
+m('c05-revert-f10', ['C05'],
+  (Q, """    for p(x) for deg(p) <= N_poly.  \"\"\"
+    N = N_poly // 2 + 1
+    nodes, weights = gauss_x_quadrature_rule(N)""",
+   """    for p(x) for deg(p) <= N_poly.  \"\"\"
+    N = (N_poly + 1) // 2
+    nodes, weights = gauss_x_quadrature_rule(N)"""), rule='E1-constructor-map')
+m('c05-log-key-shift', ['C05'],
+  (Q, """    N = (N_poly + 1) // 2
+    nodes, weights = gauss_log_quadrature_rule(N)""",
+   """    N = max((N_poly + 1) // 2 - 1, 0)
+    nodes, weights = gauss_log_quadrature_rule(N)"""), rule='E1-constructor-map')
+m('c16-exact-eq', ['C16'],
+  (IM, """                        if isclose(va[n_axis, 0], v0[n_axis, 0]) and isclose(
+                                v1[n_axis, 0], vb[n_axis, 0]):""",
+   """                        if va[n_axis, 0] == v0[n_axis, 0] and v1[
+                                n_axis, 0] == vb[n_axis, 0]:"""), rule='R-tolerance')
+m('c16-abs-tol', ['C16'],
+  (IM, "            if isclose(vtx.x, xy[0]) and isclose(vtx.y, xy[1]):",
+   "            if isclose(vtx.x, xy[0], abs_tol=1e-3) and isclose(vtx.y, xy[1], abs_tol=1e-3):"),
+  rule='R-tolerance')
